@@ -253,7 +253,7 @@ PROPS = {
         title="No temporary file or descriptor outlives Close",
         lean_modules=["Gowarc.Props.C15"],
         n_quick=3000, n_thorough=30000,
-        required_theorems=["C15_owned", "C15_close", "C15_scenario", "step_owned", "closed_stays", "run_close_closes"],
+        required_theorems=["C15_owned", "C15_close", "C15_scenario", "step_owned", "closed_stays", "run_close_closes", "C15_close_releases", "run_close_noFile", "shut_noFile"],
         model_assumptions=["what an API call returned (a record or nil, the block kind, whether the block was cached and how many bytes) is observed on the implementation and handed to the model; the model decides ownership: which Close releases which buffer, when a buffer has a temp file",
                            "operating system: one descriptor per temp file and per open reader; measured as the descriptors of the process that point into the scenario's private directories",
                            "writing into a builder after its buffer was closed, and using a record that was returned together with an error for anything but Close, are outside the statement"],
